@@ -262,12 +262,20 @@ func (e *EvalBinaryNode) eval(scope *Scope, executionState ExecutionState) (resu
 	if err != nil {
 		if typeGuardErr, isTypeGuardError := err.error.(ErrTypeGuardFailed); isTypeGuardError {
 			// Fix the type info, thanks to the type guard info
-			if err.IsLeft {
+			fixed := false
+			if err.IsLeft && e.leftType != typeGuardErr.ActualType {
 				e.leftType = typeGuardErr.ActualType
+				fixed = true
 			}
 
-			if err.IsRight {
+			if err.IsRight && e.rightType != typeGuardErr.ActualType {
 				e.rightType = typeGuardErr.ActualType
+				fixed = true
+			}
+			if !fixed {
+				// The operand already has the reported type: trying again would pick the
+				// same evaluation function and fail the same way, for ever.
+				return boolFalseResultContainer, err
 			}
 
 			// redefine the evaluation fn
